@@ -136,6 +136,8 @@ def check_all(tr, jumps, states, labels_site, M, n_atoms, T, dt, temp, info, dim
         pairs = [(a, b) for a in labels_site for b in labels_site]
         for pair in set(pairs):
             vals = [c[pair] for c in pc]
+            if sum(vals) > c_lab[pair]:
+                raise Violation('rates-consistent-with-jump-counts', f'{pair}: the parts behind rates() hold {vals} jumps but the whole has {c_lab[pair]} (minimal_residence={jumps.minimal_residence})')
             wm, ws = np.mean(vals) / denom, (np.std(vals, ddof=1) / denom if n_parts > 1 else float('nan'))
             gm, gs = float(r.loc[pair, 'rates']), float(r.loc[pair, 'std'])
             if abs(gm - wm) > 1e-9 * max(abs(wm), 1e-300) or (np.isfinite(ws) and abs(gs - ws) > 1e-9 * max(abs(ws), abs(wm), 1e-300)):
@@ -220,8 +222,11 @@ def history_cases(draw, tier):
     S = N * k
     glob = lambda arr: np.where(arr >= 0, arr * N + np.arange(N)[None, :], -1)  # noqa: E731
     states, inner = glob(st_loc), glob(in_loc)
-    if draw(st.booleans()):
+    imode = draw(st.sampled_from(['as-drawn', 'equal', 'never-inner']))
+    if imode == 'equal':
         inner = states
+    elif imode == 'never-inner':
+        inner = states * 0 - 1
     T = states.shape[0]
     frac = [[draw(st.floats(0, 1, exclude_max=True)) for _ in range(3)] for _ in range(S)]
     labels = [draw(st.sampled_from(['A', 'B', 'C'])) for _ in range(S)]
